@@ -38,6 +38,11 @@ def handle (line : String) : String :=
       | .running => "running"
       | .failed k => s!"failed {k} run-ends={runEnds (.failed k)}"
     | none => "bad-op"
+  | ["tick", i, t, d] => match i.toNat?, t.toNat? with
+    | some i, some t =>
+      let r := tick i t (if d == "-" then none else d.toNat?)
+      (match r.1 with | .ok => "ok " | .missed => "missed " | .writeErr => "write-error ") ++ toString r.2
+    | _, _ => "bad-op"
   | _ => "bad-op"
 
 def main : IO Unit := runDriver handle
